@@ -107,7 +107,7 @@ func verifFunctions() map[string]schema.FunctionSignature {
 	return map[string]schema.FunctionSignature{
 		"f0":               {ReturnType: cty.String, Description: "no params"},
 		"f1":               {ReturnType: cty.String, Params: []function.Parameter{{Name: "a", Type: cty.String}}},
-		"fobj":             {ReturnType: cty.Object(map[string]cty.Type{"a": cty.String}), Params: []function.Parameter{{Name: "a", Type: cty.String}}},
+		"fobj":             {ReturnType: cty.Object(map[string]cty.Type{"a": cty.String}), Params: []function.Parameter{{Name: "o", Type: cty.String}}},
 		"fobk":             {ReturnType: cty.Object(map[string]cty.Type{"b": cty.Number}), Params: []function.Parameter{{Name: "a", Type: cty.String}}},
 		"fsb":              {ReturnType: cty.Bool, Params: []function.Parameter{{Name: "s", Type: cty.String}, {Name: "b", Type: cty.Bool}}},
 		"f2":               {ReturnType: cty.Number, Params: []function.Parameter{{Name: "a", Type: cty.Number}, {Name: "b", Type: cty.Number}}},
@@ -693,6 +693,13 @@ func verifSeedList() []verifSeed {
 		{"cobj-quoted-key-novalue", "cobj = { \"a\" = }\n", 0},
 		{"blk-surplus-labels", "blk \"a\" \"b\" \"c\" {\n  req = 1\n}\n", 0},
 		{"call-inner-in-unterminated", "astr = fv( f1( \"x\" ), \n", 0},
+		{"res-nobrace", "res \"aws\" \"a\"\n", 2},
+		{"mod-source-call", "mod \"m\" {\n  source = f1( \"./m\" )\n  input = \"i\"\n}\n", 2},
+		{"be-backend-call", "be \"s3\" {\n  backend = f1( \"s\" )\n  bucket = \"b\"\n  special_opt = \"o\"\n}\n", 2},
+		{"mod-source-template", "mod \"m\" {\n  source = \"${var.foo}\"\n  other = \"o\"\n}\n", 2},
+		{"astr-not-partial", "astr = !v\n", 0},
+		{"astr-not-dot", "astr = !var.\n", 0},
+		{"any-neg-partial", "any = -va\n", 0},
 		{"res-rule-dynamic-below-max", "res \"aws\" \"a\" {\n  size = 1\n  rule {\n  }\n  dynamic \"rule\" {\n    for_each = var.x\n    content {\n    }\n  }\n}\n", 2},
 		{"valid-res-rule-dynamic-max", "res \"aws\" \"a\" {\n  size = 1\n  rule {\n  }\n  rule {\n  }\n  dynamic \"rule\" {\n    for_each = var.x\n    content {\n    }\n  }\n}\n", 2},
 		{"res-self-plain", "res \"aws\" \"a\" {\n  size = 1\n  plain {\n    v = self\n  }\n  rule {\n    prio = self\n  }\n}\n", 2},
